@@ -26,6 +26,10 @@ class UnsupportedSymbolic(BaseException):
     """The code under analysis used an operation the proxies do not model."""
 
 
+class ReplayEnd(BaseException):
+    """Replay reached the point where the recorded symbolic path stopped."""
+
+
 class Budget(BaseException):
     """Exploration budget exhausted."""
 
@@ -152,8 +156,6 @@ def as_bool_term(x):
 # --------------------------------------------------------------------------- SBool
 class SBool:
     """Symbolic boolean.  ``bool()`` forks the execution."""
-    __slots__ = ('t',)
-
     def __init__(self, t):
         self.t = zbool(t)
 
@@ -215,6 +217,17 @@ class SBool:
     def __add__(self, o):
         return self._as_int() + o
     __radd__ = __add__
+
+    # numpy.bool_ look-alike
+    def all(self, *a, **k):
+        return self
+
+    def any(self, *a, **k):
+        return self
+
+    shape = ()
+    ndim = 0
+    size = 1
 
     def __repr__(self):
         return f'SBool({self.t})'
@@ -699,7 +712,8 @@ class Explorer:
     symbolic = True
 
     def __init__(self, *, query_timeout_ms=20000, max_paths=200000, seed=0,
-                 stop_at_first=True, max_failures=8, exclude=None, deadline=None):
+                 stop_at_first=True, max_failures=8, exclude=None, deadline=None, logic=None):
+        self.logic = logic
         self.query_timeout_ms = query_timeout_ms
         self.max_paths = max_paths
         self.seed = seed
@@ -713,7 +727,9 @@ class Explorer:
 
     # ---- per-path state
     def _reset_path(self, prefix):
-        self.solver = z3.Solver()
+        # an explicit logic matters: z3's default combined solver can hang (ignoring its timeout)
+        # on nonlinear real queries that the QF_NRA tactic decides in milliseconds
+        self.solver = z3.SolverFor(self.logic) if self.logic else z3.Solver()
         self.solver.set('timeout', self.query_timeout_ms)
         if self.seed:
             self.solver.set('random_seed', self.seed)
@@ -723,11 +739,44 @@ class Explorer:
         self.inputs = {}            # name -> proxy (registered inputs)
         self.notes = {}             # free-form per-path notes included in samples
         self.path_failed = False
+        self.refiners = []
+        self.law_stubs = []
 
     # ---- solver plumbing
-    def _check(self, *assumptions):
+    def _check(self, *assumptions, need_model=False):
         t0 = time.time()
-        r = self.solver.check(*assumptions)
+        if self.logic:
+            # non-incremental: a fresh solver per query keeps z3 on its tactic-based (complete)
+            # procedure for the logic; incremental mode falls back to a core that can diverge.
+            # Cone of influence: only the assertions that share variables (transitively) with
+            # the queried formula are sent; the rest of the path condition is satisfiable on its
+            # own (feasibility is re-established at every decision) and independent.
+            asserts = list(self.solver.assertions())
+            query = [a for a in assumptions]
+            sl = self._slice(asserts, query) if query else asserts
+            s = z3.SolverFor(self.logic)
+            s.set('timeout', self.query_timeout_ms)
+            if self.seed:
+                s.set('random_seed', self.seed)
+            s.add(*sl)
+            s.add(*query)
+            r = s.check()
+            self._last = s
+            if r == z3.sat and need_model and len(sl) < len(asserts):
+                # complete the model over the dropped (independent) assertions
+                m = s.model()
+                s2 = z3.SolverFor(self.logic)
+                s2.set('timeout', self.query_timeout_ms)
+                s2.add(*asserts)
+                s2.add(*query)
+                for d in m.decls():
+                    if d.arity() == 0:
+                        s2.add(d() == m[d])
+                if s2.check() == z3.sat:
+                    self._last = s2
+        else:
+            r = self.solver.check(*assumptions)
+            self._last = self.solver
         self.stats.solver_s += time.time() - t0
         self.stats.queries += 1
         if r == z3.sat:
@@ -737,6 +786,50 @@ class Explorer:
         else:
             self.stats.unknown += 1
         return r
+
+    _VARS = {}
+
+    @classmethod
+    def _vars_of(cls, t):
+        k = t.get_id()
+        v = cls._VARS.get(k)
+        if v is not None and v[0].eq(t):
+            return v[1]
+        out = set()
+        seen = set()
+        stack = [t]
+        while stack:
+            x = stack.pop()
+            i = x.get_id()
+            if i in seen:
+                continue
+            seen.add(i)
+            if z3.is_app(x):
+                if x.num_args() == 0 and x.decl().kind() == z3.Z3_OP_UNINTERPRETED:
+                    out.add(x.decl().name())
+                else:
+                    stack.extend(x.children())
+        if len(cls._VARS) > 200000:
+            cls._VARS.clear()
+        cls._VARS[k] = (t, frozenset(out))
+        return cls._VARS[k][1]
+
+    def _slice(self, asserts, query):
+        need = set()
+        for q in query:
+            need |= self._vars_of(q)
+        vs = [self._vars_of(a) for a in asserts]
+        used = [False] * len(asserts)
+        changed = True
+        while changed:
+            changed = False
+            for i, v in enumerate(vs):
+                if not used[i] and (not v or (v & need)):
+                    used[i] = True
+                    if not v <= need:
+                        need |= v
+                        changed = True
+        return [a for a, u in zip(asserts, used) if u]
 
     def side(self, c):
         c = zbool(c)
@@ -812,7 +905,7 @@ class Explorer:
             if r == z3.unknown:
                 self.inconclusive.append('unknown while concretising an integer')
             raise PathAbort()
-        m = self.solver.model()
+        m = self._last.model()
         v = m.eval(term, model_completion=True).as_long()
         # is another value possible?
         r2 = self._check(term != v)
@@ -824,10 +917,18 @@ class Explorer:
         return v
 
     def choice(self, n, label='choice'):
-        """forked selector in range(n) (a fresh finite-domain symbolic int, concretised)"""
-        t = self.fresh_int(label)
-        self.solver.add(t >= 0, t < n)
-        v = self.concretize_int(t, (0, n - 1))
+        """forked selector in range(n): a pure enumerated decision (kept out of the solver so that
+        integer selector variables do not push z3 out of the pure real-arithmetic fragment)"""
+        if self.pos < len(self.decisions):
+            d = self.decisions[self.pos]
+            assert d[0] == 'c', f'decision mismatch: {d}'
+            v = d[1]
+        else:
+            v = 0
+            for alt in range(n - 1, 0, -1):
+                self.worklist.append(self.decisions[:self.pos] + [('c', alt)])
+            self.decisions.append(('c', 0))
+        self.pos += 1
         self.notes.setdefault('choices', []).append((label, v))
         return v
 
@@ -857,7 +958,7 @@ class Explorer:
         r = z3.Real(name)
         if special:
             nan, pinf, ninf = z3.Bool(name + '.nan'), z3.Bool(name + '.pinf'), z3.Bool(name + '.ninf')
-            self.solver.add(z3.AtMost(nan, pinf, ninf, 1))
+            self.solver.add(z3.Not(z3.And(nan, pinf)), z3.Not(z3.And(nan, ninf)), z3.Not(z3.And(pinf, ninf)))
             self.solver.add(z3.Implies(z3.Or(nan, pinf, ninf), r == 0))
             x = SReal(r, nan, pinf, ninf)
             if nonneg or pos:
@@ -899,14 +1000,15 @@ class Explorer:
         ex = self._exclude.get(label) or self._exclude.get('*')
         if ex is not None:
             extra = [as_bool_term(Not(ex(self)))]
-        r = self._check(neg, *extra)
+        r = self._check(neg, *extra, need_model=True)
         if r == z3.unsat:
             self.stats.check_unsat[label] = self.stats.check_unsat.get(label, 0) + 1
             return True
         if r == z3.unknown:
             self.inconclusive.append(f'solver unknown on check {label!r}')
             return None
-        m = self.solver.model()
+        m = self._last.model()
+        m = self._refine(m, neg, extra)
         inputs = self.model_inputs(m)
         d = detail(m) if callable(detail) else (detail or '')
         self.failures.append(Failure(label, 'check', inputs, d, list(self.decisions)))
@@ -914,6 +1016,36 @@ class Explorer:
         if len(self.failures) >= self.max_failures:
             raise Budget()
         return False
+
+    def _refine(self, m, neg, extra):
+        """Ask the registered refiners (environment stubs) for constraints that make the model
+        consistent with the real library (e.g. real quantiles of a law); re-solve with them.
+        Up to 6 attempts with different stub-relevant values; falls back to the raw model."""
+        refiners = getattr(self, 'refiners', None)
+        if not refiners:
+            return m
+        blocks = []
+        cur = m
+        for _ in range(6):
+            pins, keys = [], []
+            for fn in refiners:
+                k, p = fn(cur)
+                keys.extend(k)
+                pins.extend(p)
+            if not pins:
+                return cur
+            r = self._check(neg, *extra, *keys, *pins)
+            if r == z3.sat:
+                return self._last.model()
+            # the pinned (alpha, ndf...) admit no counterexample: look for another combination
+            if not keys:
+                break
+            blocks.append(z3.Not(z3.And(*keys)))
+            r = self._check(neg, *extra, *blocks)
+            if r != z3.sat:
+                break
+            cur = self._last.model()
+        return m
 
     def fail(self, label, detail=''):
         """Unconditional failure on this path (reached a state that must not be reachable)."""
@@ -972,9 +1104,9 @@ class Explorer:
                     harness(self)
                     self.stats.paths += 1
                     if len(self.stats.samples) < 4:
-                        r = self._check()
+                        r = self._check(need_model=True)
                         if r == z3.sat:
-                            self.stats.samples.append(self.model_inputs(self.solver.model()))
+                            self.stats.samples.append(self.model_inputs(self._last.model()))
                 except PathAbort:
                     self.stats.paths_aborted += 1
                 except Budget:
@@ -988,7 +1120,7 @@ class Explorer:
                     tb = traceback.format_exc(limit=-6)
                     r = self._check()
                     if r == z3.sat:
-                        inputs = self.model_inputs(self.solver.model())
+                        inputs = self.model_inputs(self._last.model())
                         self.failures.append(Failure('no-unexpected-exception', 'exception', inputs,
                                                      f'{type(e).__name__}: {e}\n{tb}',
                                                      list(self.decisions)))
@@ -1048,6 +1180,8 @@ class Concrete:
         return self._val(self.given[name])
 
     def choice(self, n, label='choice'):
+        if self._ci >= len(self._choices):
+            raise ReplayEnd()      # the symbolic path ended here (it had recorded a failure)
         lab, v = self._choices[self._ci]
         self._ci += 1
         assert lab == label, (lab, label)
@@ -1078,6 +1212,15 @@ class Concrete:
     def run(self, harness):
         try:
             harness(self)
+        except ReplayEnd:
+            pass
+        except KeyError as e:
+            if e.args and isinstance(e.args[0], str) and e.args[0] not in self.given and self.failures:
+                pass          # input created after the recorded failure point
+            else:
+                import traceback
+                self.failures.append(Failure('no-unexpected-exception', 'exception', self.given,
+                                             f'KeyError: {e}\n' + traceback.format_exc(limit=-6)))
         except PathAbort:
             self.failures.append(Failure('replay-left-the-assumptions', 'harness', self.given))
         except Exception as e:   # noqa
